@@ -124,8 +124,117 @@ Section Fr.
 
   Definition quiet (s : hstate) : Prop := mw s && chg s = false.
 
-  (* a seek on a handle with nothing to flush changes nothing; otherwise it is the flush that writes *)
-  Lemma seek_gen_dk eofk s p : (forall t, quiet t -> dk (snd (eofk t)) = dk t) ->
+  (* same volume, same flags deciding whether a flush happens *)
+  Definition Same (s t : hstate) : Prop := dk t = dk s /\ mw t = mw s /\ chg t = chg s.
+  Lemma same_refl s : Same s s.
+  Proof. repeat split. Qed.
+  Lemma same_trans a b c : Same a b -> Same b c -> Same a c.
+  Proof. intros (H1 & H2 & H3) (H4 & H5 & H6). repeat split; congruence. Qed.
+  Lemma same_quiet s t : Same s t -> quiet s -> quiet t.
+  Proof. intros (_ & H2 & H3) Hq. unfold quiet in *. rewrite H2, H3. exact Hq. Qed.
+
+  Lemma load_ext_same s n : Same s (snd (load_ext bad s n)).
+  Proof. unfold load_ext. destruct (rd_ext bad s n); repeat split. Qed.
+
+  Lemma read_next_same s : Same s (snd (read_next bs ofs bad s)).
+  Proof.
+    unfold read_next.
+    set (P := if ndb s =? 0 then _ else _).
+    assert (HP : Same s (snd (fst P))).
+    { subst P. destruct (ndb s =? 0); [apply same_refl|]. destruct (ndb s <? MAXDB); [apply same_refl|].
+      set (Q := if ndb s =? MAXDB then _ else _).
+      assert (HQ : Same s (snd Q)).
+      { subst Q. destruct (ndb s =? MAXDB).
+        - eapply same_trans; [|apply load_ext_same]. destruct (cext s); repeat split.
+        - destruct (pinx s =? MAXDB); [apply load_ext_same|apply same_refl]. }
+      destruct Q as (okx, sx). destruct okx; exact HQ. }
+    destruct P as ((ok1, s1), nt). cbn [fst snd] in HP. destruct ok1; cbn [negb]; [|exact HP].
+    destruct (_ <? 2); [exact HP|]. destruct (rd_data bs bad s1 _); exact HP.
+  Qed.
+
+  Lemma seek_start_same s : Same s (snd (seek_start bs ofs bad s)).
+  Proof.
+    unfold seek_start. set (s0 := set_cur _ 0). destruct (fsize s0 =? 0); [repeat split|].
+    pose proof (read_next_same s0) as H. destruct (read_next bs ofs bad s0) as (ok, s1). destruct ok; exact H.
+  Qed.
+
+  Lemma ext_walk_same : forall fuel s nsect i ext, Same s (snd (fst (ext_walk bad fuel s nsect i ext))).
+  Proof.
+    induction fuel as [|f IH]; intros s nsect i ext; [apply same_refl|]. cbn [ext_walk].
+    destruct ((i <? ext) && negb (nsect =? 0)); [|apply same_refl]. destruct (rd_ext bad s nsect) as [x|]; [|apply same_refl].
+    eapply same_trans; [|apply IH]. repeat split.
+  Qed.
+
+  Lemma read_ext_n_same s ext : Same s (snd (read_ext_n bs bad s ext)).
+  Proof.
+    unfold read_ext_n. destruct (_ || _); [apply same_refl|].
+    pose proof (ext_walk_same (Z.to_nat (ext + 1)) s (h_ext (fh s)) (-1) ext) as H.
+    destruct (ext_walk bad _ s _ _ _) as ((ok, s1), i). destruct (ok && (i =? ext)); exact H.
+  Qed.
+
+  Lemma seek_mid_same s : Same s (snd (seek_mid bs bad s)).
+  Proof.
+    unfold seek_mid. destruct (pos2db (pos s) bs) as (((ext, px), pd), k).
+    set (s1 := set_ndb _ k).
+    set (P := if ext =? -1 then _ else _).
+    assert (HP : Same s (snd P)).
+    { subst P. destruct (ext =? -1); [repeat split|].
+      set (s1' := match cext s1 with None => _ | Some _ => s1 end).
+      assert (H1 : Same s s1') by (subst s1'; destruct (cext s1); repeat split).
+      pose proof (read_ext_n_same s1' ext) as H. destruct (read_ext_n bs bad s1' ext) as (okx, sx). cbn [snd] in H.
+      destruct okx; (eapply same_trans; [exact H1|]); (eapply same_trans; [exact H|]); repeat split. }
+    destruct P as (ok2, s2). cbn [snd] in HP. destruct ok2; cbn [negb]; [|exact HP].
+    destruct (cur s2 <? 2); [exact HP|]. destruct (rd_data bs bad s2 (cur s2)); exact HP.
+  Qed.
+
+  Lemma ofs_walk_same : forall fuel s offset target, Same s (snd (ofs_walk bs ofs bad fuel s offset target)).
+  Proof.
+    induction fuel as [|f IH]; intros s offset target; [apply same_refl|]. cbn [ofs_walk].
+    destruct (offset <? target); [|apply same_refl].
+    set (s1 := set_pind _ _). destruct ((pind s1 =? bs) && _).
+    - pose proof (read_next_same s1) as H. destruct (read_next bs ofs bad s1) as (ok, sn). cbn [snd] in H.
+      assert (H1 : Same s s1) by (subst s1; repeat split).
+      destruct ok; [|eapply same_trans; [exact H1|]; eapply same_trans; [exact H|]; repeat split].
+      eapply same_trans; [|apply IH]. eapply same_trans; [exact H1|]. eapply same_trans; [exact H|]. repeat split.
+    - eapply same_trans; [|apply IH]. subst s1. repeat split.
+  Qed.
+
+  Lemma seek_ofs_same eofk s p : (forall t, quiet t -> Same t (snd (eofk t))) -> quiet s -> Same s (snd (seek_ofs bs ofs bad eofk s p)).
+  Proof.
+    intros He Hq. unfold seek_ofs. pose proof (seek_start_same s) as H0. set (s0 := snd (seek_start bs ofs bad s)) in *.
+    destruct (_ =? fsize s0).
+    - eapply same_trans; [exact H0|]. apply He. apply (same_quiet s s0 H0 Hq).
+    - eapply same_trans; [exact H0|]. apply ofs_walk_same.
+  Qed.
+
+  Lemma seek_fb_same eofk s r p : (forall t, quiet t -> Same t (snd (eofk t))) -> quiet s -> Same s (snd r) -> Same s (snd (seek_fb bs ofs bad eofk r p)).
+  Proof.
+    intros He Hq Hr. unfold seek_fb. destruct (negb (fst r) && ofs); [|exact Hr].
+    eapply same_trans; [exact Hr|]. apply seek_ofs_same; [exact He|]. apply (same_quiet s _ Hr Hq).
+  Qed.
+
+  (* a seek on a handle with nothing to flush changes nothing ... *)
+  Lemma seek_gen_quiet eofk s p : (forall t, quiet t -> Same t (snd (eofk t))) -> quiet s -> Same s (snd (seek_gen bs ofs bad eofk s p)).
+  Proof.
+    intros He Hq. unfold seek_gen. destruct (_ && _ && _); [apply same_refl|]. destruct (_ && _); [repeat split|].
+    pose proof Hq as Hq'. unfold quiet in Hq'. rewrite Hq'. destruct (p =? 0); [apply seek_start_same|].
+    set (s2 := set_pos s _). assert (H2 : Same s s2) by (subst s2; repeat split).
+    apply seek_fb_same; [exact He|exact Hq|].
+    destruct (pos s2 =? fsize s2).
+    - eapply same_trans; [exact H2|]. apply He. apply (same_quiet s s2 H2 Hq).
+    - eapply same_trans; [exact H2|]. apply seek_mid_same.
+  Qed.
+
+  Lemma seek_eof_quiet s : quiet s -> Same s (snd (seek_eof bs ofs bad s)).
+  Proof.
+    intros Hq. unfold seek_eof. destruct (fsize s =? 0); [apply seek_start_same|].
+    pose proof (seek_gen_quiet (fun t => (false, t)) s (fsize s - 1) (fun t _ => same_refl t) Hq) as H.
+    destruct (seek_gen bs ofs bad _ s (fsize s - 1)) as (ok, s1). cbn [snd] in H. destruct ok; cbn [negb snd]; [|exact H].
+    eapply same_trans; [exact H|]. repeat split.
+  Qed.
+
+  (* ... otherwise it is the flush that writes *)
+  Lemma seek_gen_dk eofk s p : (forall t, quiet t -> Same t (snd (eofk t))) ->
     dk (snd (seek_gen bs ofs bad eofk s p)) = dk s \/ (mw s = true /\ dk (snd (seek_gen bs ofs bad eofk s p)) = dk (fio_flush bs ofs s)).
   Proof.
     intros He. unfold seek_gen.
@@ -136,33 +245,21 @@ Section Fr.
       - split; [unfold quiet; cbn; apply andb_false_r|]. right. apply andb_prop in Hq. split; [apply Hq|reflexivity].
       - split; [exact Hq|left; reflexivity]. }
     destruct H1 as (Hq1 & H1). clearbody s1.
-    assert (G : forall t, dk t = dk s1 -> dk t = dk s \/ (mw s = true /\ dk t = dk (fio_flush bs ofs s))).
-    { intros t Ht. rewrite Ht. exact H1. }
-    destruct (p =? 0); [apply G, seek_start_dk|].
-    set (s2 := set_pos s1 _). destruct (pos s2 =? fsize s2).
-    - apply G. rewrite He; [reflexivity|exact Hq1].
-    - apply G. rewrite seek_mid_dk. reflexivity.
-  Qed.
-
-  Lemma seek_gen_quiet eofk s p : (forall t, quiet t -> dk (snd (eofk t)) = dk t) -> quiet s -> dk (snd (seek_gen bs ofs bad eofk s p)) = dk s.
-  Proof.
-    intros He Hq. unfold seek_gen. destruct (_ && _ && _); [reflexivity|]. destruct (_ && _); [reflexivity|].
-    unfold quiet in Hq. rewrite Hq. destruct (p =? 0); [apply seek_start_dk|].
-    set (s2 := set_pos s _). destruct (pos s2 =? fsize s2); [|rewrite seek_mid_dk; subst s2; reflexivity]. rewrite He; [subst s2; reflexivity|exact Hq].
-  Qed.
-
-  Lemma seek_eof_quiet s : quiet s -> dk (snd (seek_eof bs ofs bad s)) = dk s.
-  Proof.
-    intros Hq. unfold seek_eof. destruct (fsize s =? 0); [apply seek_start_dk|].
-    pose proof (seek_gen_quiet (fun t => (false, t)) s (fsize s - 1) (fun t _ => eq_refl) Hq) as H.
-    destruct (seek_gen bs ofs bad _ s (fsize s - 1)) as (ok, s1). destruct ok; exact H.
+    assert (G : forall t, Same s1 t -> dk t = dk s \/ (mw s = true /\ dk t = dk (fio_flush bs ofs s))).
+    { intros t (Ht & _). rewrite Ht. exact H1. }
+    destruct (p =? 0); [apply G, seek_start_same|].
+    set (s2 := set_pos s1 _). assert (H2 : Same s1 s2) by (subst s2; repeat split).
+    apply G. apply seek_fb_same; [exact He|exact Hq1|].
+    destruct (pos s2 =? fsize s2).
+    - eapply same_trans; [exact H2|]. apply He. apply (same_quiet s1 s2 H2 Hq1).
+    - eapply same_trans; [exact H2|]. apply seek_mid_same.
   Qed.
 
   Theorem fio_seek_dk s p : dk (snd (fio_seek bs ofs bad s p)) = dk s \/ (mw s = true /\ dk (snd (fio_seek bs ofs bad s p)) = dk (fio_flush bs ofs s)).
   Proof. apply seek_gen_dk. intros t Ht. apply seek_eof_quiet, Ht. Qed.
 
   Theorem fio_seek_quiet s p : quiet s -> dk (snd (fio_seek bs ofs bad s p)) = dk s.
-  Proof. intros Hq. apply seek_gen_quiet; [intros t Ht; apply seek_eof_quiet, Ht|exact Hq]. Qed.
+  Proof. intros Hq. apply (seek_gen_quiet (seek_eof bs ofs bad) s p); [intros t Ht; apply seek_eof_quiet, Ht|exact Hq]. Qed.
 
   Theorem fio_seek_fr S s p : Own S s -> Fr S s (snd (fio_seek bs ofs bad s p)).
   Proof.
@@ -254,7 +351,7 @@ Section Fr.
     destruct (blocks_to_remove bs bad s1 sizeNew) as [rem|]; [|reflexivity].
     set (t := set_fh s1 (set_h_size (fh s1) sizeNew)).
     assert (Hq : quiet t) by (unfold quiet; subst t s1; cbn; apply andb_false_r).
-    pose proof (seek_eof_quiet t Hq) as Hse. destruct (seek_eof bs ofs bad t) as (ok, s2). cbn [snd] in Hse.
+    pose proof (proj1 (seek_eof_quiet t Hq)) as Hse. destruct (seek_eof bs ofs bad t) as (ok, s2). cbn [snd] in Hse.
     assert (Ht : dk t = dk (fio_flush bs ofs s)) by reflexivity. rewrite Ht in Hse. clearbody t s1.
     destruct ok; cbn [negb fst snd]; [|exact Hse].
     rewrite <- Hse.
